@@ -153,12 +153,15 @@ def concrete(inp):
             for g in (PervaporationFunction.load(Path(root) / "f.pv"), PervaporationFunction.safe_load(Path(root) / "f.json")):
                 if not (g.n == 2 and g.m == 1 and close(g.alpha, 0.31) and all(close(x, y) for x, y in zip(list(g.a) + list(g.b), [0.2, -0.11, 1000.5, 50.25]))):
                     bad.append("PervaporationFunction round trip gives %r" % (g,))
-            c = Conditions(membrane_area=0.4, initial_feed_temperature=333.1, initial_feed_amount=2.5, initial_feed_composition=pv.Composition(0.33, "molar"), permeate_pressure=1.25)
-            c.safe_save(Path(root) / "c.json")
-            g = Conditions.safe_load(Path(root) / "c.json")
-            if not (close(g.membrane_area, 0.4) and close(g.initial_feed_temperature, 333.1) and close(g.initial_feed_amount, 2.5) and close(g.initial_feed_composition.p, 0.33)
-                    and g.initial_feed_composition.type == "molar" and g.permeate_temperature is None and close(g.permeate_pressure, 1.25)):
-                bad.append("Conditions round trip gives %r" % (g,))
+            for tp, pp in ((None, 1.25), (None, 0.0), (293.15, None), (None, None), (0.0, None)):  # incl. an explicit vacuum of 0 kPa
+                c = Conditions(membrane_area=0.4, initial_feed_temperature=333.1, initial_feed_amount=2.5, initial_feed_composition=pv.Composition(0.33, "molar"),
+                               permeate_temperature=tp, permeate_pressure=pp)
+                c.safe_save(Path(root) / "c.json")
+                g = Conditions.safe_load(Path(root) / "c.json")
+                same = lambda a, b: (a is None and b is None) or (a is not None and b is not None and close(a, b, 1e-9, 1e-12))
+                if not (close(g.membrane_area, 0.4) and close(g.initial_feed_temperature, 333.1) and close(g.initial_feed_amount, 2.5) and close(g.initial_feed_composition.p, 0.33)
+                        and g.initial_feed_composition.type == "molar" and same(tp, g.permeate_temperature) and same(pp, g.permeate_pressure)):
+                    bad.append("Conditions(permeate_temperature=%r, permeate_pressure=%r) round trip gives (%r, %r) and %r" % (tp, pp, g.permeate_temperature, g.permeate_pressure, g))
         if what in ("history", "all"):
             bad += _history_concrete(root, mix, mem)
     finally:
@@ -432,9 +435,15 @@ def small_objects(job):
                 for basis in ("weight", "molar"):
                     c = Conditions(membrane_area=real("A"), initial_feed_temperature=real("T0"), initial_feed_amount=real("m0"),
                                    initial_feed_composition=build.comp(real("x0"), basis), permeate_temperature=Tp, permeate_pressure=Pp)
-                    c.safe_save(Path(root) / "c.json")
                     tag = "C17/conditions/%s/%s" % ("ptemp" if Tp is not None else "ppres" if Pp is not None else "vac", basis)
-                    for leaf in job.explore(lambda: Conditions.safe_load(Path(root) / "c.json"), [real("x0").t >= 0, real("x0").t <= 1]):
+
+                    def save_and_load(c=c):
+                        # saving is explored too: a branch on the value of an optional field (an explicit 0 kPa, say) is a path of its own
+                        c.safe_save(Path(root) / "c.json")
+                        return Conditions.safe_load(Path(root) / "c.json")
+
+                    dom_c = [real("x0").t >= 0, real("x0").t <= 1] + ([Tp.t >= 0] if Tp is not None else []) + ([Pp.t >= 0] if Pp is not None else [])
+                    for leaf in job.explore(save_and_load, dom_c):
                         if leaf.kind != "returned":
                             job.judge(tag + "/loads", False, "loading raised %r" % (leaf.value,), R_, inputs)
                             continue
